@@ -1,7 +1,7 @@
 #!/bin/bash
 # tools/confirm_mutant.sh <ID> <k> : confirm a sub-agent's change in a scratch worktree (applies, 55 tests pass, demo fails
 # with it and passes without it) and, if confirmed, record it under /verif/seeded/<ID>_<k>/
-id="$1"; k="$2"; src=/tmp/mut/$id/out
+id="$1"; k="$2"; src=${MUTSRC:-/tmp/mut}/$id/out
 wt=/tmp/cm_${id}_${k}
 git -C /repo worktree add --detach "$wt" HEAD >/dev/null 2>&1
 run() { (cd "$wt" && PYTHONPATH="$wt" PYTHONHASHSEED=0 timeout 900 /venv/bin/python "$@" >/dev/null 2>&1); echo $?; }
@@ -14,16 +14,16 @@ ok=no
 if [ "$clean" = "0" ] && [ "$mut" != "0" ] && echo "$tests" | grep -q "^55 passed"; then ok=yes; fi
 echo "$id $k demo_clean=$clean demo_mutant=$mut tests='$tests' confirmed=$ok"
 if [ $ok = yes ]; then
-  d=/verif/seeded/${id}_${k}; mkdir -p $d
+  d=/verif/seeded/${id}_${K2:-$k}; mkdir -p $d
   cp $src/${id}_${k}.diff $d/patch.diff; cp $src/${id}_${k}_demo.py $d/demo.py
-  /venv/bin/python - "$id" "$k" "$tests" <<'PY'
+  /venv/bin/python - "$id" "$k" "$tests" "${K2:-$k}" "${MUTSRC:-/tmp/mut}" <<'PY'
 import json,sys
-id,k,tests=sys.argv[1:4]
-j=json.load(open(f"/tmp/mut/{id}/out/{id}_{k}.json"))
+id,k,tests,k2,src=sys.argv[1:6]
+j=json.load(open(f"{src}/{id}/out/{id}_{k}.json"))
 meta={"property":id,"summary":j.get("summary"),"needs":j.get("needs"),"files":j.get("files"),
       "confirmed":{"applies_to":"/repo HEAD (with the fix: commits)","test_suite_with_change":tests,"demo_without_change":"exit 0","demo_with_change":"exit non-zero",
                    "how":"tools/confirm_mutant.sh in a scratch git worktree under /tmp, removed afterwards"},
-      "origin":"independent sub-agent given only the property text and its own worktree"}
-json.dump(meta,open(f"/verif/seeded/{id}_{k}/meta.json","w"),indent=1)
+      "origin":"independent sub-agent given only the property text and its own worktree"+(" (second round: asked to look at glue code, reuse, aliasing, rare-but-legal inputs)" if k2 in "cd" else "")}
+json.dump(meta,open(f"/verif/seeded/{id}_{k2}/meta.json","w"),indent=1)
 PY
 fi
